@@ -150,6 +150,38 @@ def gen_cases(rnd, tier):
             # arbitrary token soup: compared with the model only
             soup = [rnd.choice(["<", ">", "L", "SVID", "X", "l", "svid", "#c\n"]) for _ in range(rnd.randint(0, 12))]
             lits.append(("soup", case_lit(" ".join(soup), None, 0)))
+    # every definition with at most 4 (quick) / 5 (thorough) nodes over two data items and one list name
+    def small(nodes, top):
+        """all ASTs with exactly `nodes` nodes"""
+        out = []
+        if nodes == 1 and not top:
+            return [("item", "SVID"), ("item", "CEID")]
+        if nodes < 1:
+            return out
+        # a list with members using nodes-1 nodes
+        def splits(total, parts):
+            if parts == 1:
+                yield [total]
+                return
+            for first in range(1, total - parts + 2):
+                for rest in splits(total - first, parts - 1):
+                    yield [first] + rest
+        members = []
+        for parts in range(1, nodes):
+            for sp in splits(nodes - 1, parts):
+                combos = [[]]
+                for sz in sp:
+                    combos = [c + [m] for c in combos for m in small(sz, False)]
+                members.extend(combos)
+        for ms in members:
+            for name in (None, "NM"):
+                out.append(("list", name, ms))
+        return out
+
+    limit = 5 if tier == "thorough" else 4
+    for nodes in range(2, limit + 1):
+        for a in small(nodes, True):
+            lits.append(("small", case_lit(render(tokens(a), rnd), a, 0)))
     # the documentation's own examples
     docs = [
         ("list", None, [("item", "TRID"), ("item", "DSPER"), ("item", "TOTSMP"), ("item", "REPGSZ"), ("list", "SVIDS", [("item", "SVID")])]),
